@@ -29,7 +29,8 @@ PROPS = {
             "rule": "seeded pin/lookup/terminate/wait histories on the real DialogBasedBackend under a virtual clock; " + SIDE_NOTE},
     "C20": {"lean": ["C20"], "streams": [{"name": "send", "gen": "send"}],
             "rule": "exhaustive fault patterns: cached connection script x reconnectable path x listener up/down per message, sequences of 1-3 messages, for TCPClientTransport, FailOverClientTransport and TCPBackend; " + SIDE_NOTE},
-    "C01": {"lean": ["C01"], "expected": ["Tables"], "streams": [{"name": "pipe", "gen": "pipe"}],
+    "C01": {"lean": ["C01"], "expected": ["Tables"], "also": ["C11"],
+            "streams": [{"name": "pipe", "gen": "pipe"}, {"name": "frame", "gen": "frame", "args": {"focus": "frame"}}],
             "rule": PIPE_RULE},
     "C02": {"lean": ["C02"], "expected": ["Tables"], "streams": [{"name": "pipe", "gen": "pipe", "args": {"focus": "responses"}}, {"name": "pipe2", "gen": "pipe", "args": {"focus": "dialogs"}}],
             "rule": PIPE_RULE},
